@@ -383,9 +383,12 @@ impl ScriptMod {
                 let spec = self.spec();
                 let cur = current();
                 let expected_path = module_path(&self.prog, self.idx);
+                use des::net::module::ModuleReferencingError as MRE;
+                // (a parent / child that is shut down or has panicked is reported as currently inactive: fine)
                 let parent_ok = match (spec.parent, cur.parent()) {
-                    (-1, Err(_)) => true,
+                    (-1, Err(MRE::NoEntry(_))) => true,
                     (p, Ok(pr)) if p >= 0 => pr.path().as_str() == module_path(&self.prog, p as usize),
+                    (p, Err(MRE::CurrentlyInactive(_))) if p >= 0 => true,
                     _ => false,
                 };
                 let mut children_ok = true;
@@ -394,6 +397,7 @@ impl ScriptMod {
                     if is_child {
                         match cur.child(&c.name) {
                             Ok(ch) => children_ok &= ch.path().as_str() == module_path(&self.prog, ci),
+                            Err(MRE::CurrentlyInactive(_)) => {}
                             Err(_) => children_ok = false,
                         }
                     }
@@ -499,7 +503,7 @@ impl Module for ScriptMod {
             }
             crate::asy::spawn_tasks(self.idx, self.inc, &self.prog);
             for (ai, a) in spec.start_acts.iter().enumerate().take(8) {
-                if matches!(a, Act::Send { .. } | Act::SelfMsg { .. } | Act::Random | Act::NotifyTask { .. }) && !self.do_act(START_SITE, ai, a) {
+                if matches!(a, Act::Send { .. } | Act::SelfMsg { .. } | Act::Random | Act::NotifyTask { .. } | Act::Shutdown { .. }) && !self.do_act(START_SITE, ai, a) {
                     break;
                 }
             }
